@@ -113,6 +113,7 @@ var errClasses = []struct {
 	{regexp.MustCompile(`not a directory`), "notDir"},
 	{regexp.MustCompile(`required variable|invalid interpolation format|Invalid template`), "interp"},
 	{regexp.MustCompile(`Top-level object must be a mapping`), "topLevel"},
+	{regexp.MustCompile(`unexpected type|invalid mount config`), "pathType"},
 	{regexp.MustCompile(`yaml:`), "yaml"},
 	{regexp.MustCompile(`validating |Additional property|must be a |does not match any of the regexes`), "schema"},
 	{regexp.MustCompile(`cannot parse|expected a map|expected type|unconvertible type|decoding|invalid type`), "decode"},
